@@ -302,7 +302,7 @@ def run_same_labels(concepts, case, spec):
     rng = random.Random(f"{spec['seed']}/c11same/{case['n']}")
     n, m = rng.randint(2, 5), rng.randint(2, 5)
     objects, properties = gen.labels(n, m, rng.choice(['shared', 'plain', 'unicode']))
-    shadows, blobs = [], []
+    shadows, blobs, alive = [], [], []
     for k in range(4):
         rows = gen.rnd_rows(rng, n, m, rng.choice([.3, .5, .7]))
         sh = Shadow(objects, properties, rows)
@@ -312,7 +312,12 @@ def run_same_labels(concepts, case, spec):
         obj = ctx if k % 2 == 0 else (ctx, call(lambda: ctx.lattice))
         blobs.append(pickle.dumps(obj, protocol=rng.choice([2, 4, 5])))
         shadows.append(sh)
+        if k % 2:
+            alive.append((ctx, sh))         # stays alive while the pickles of discarded ones are loaded
         del ctx, obj
+        if case['n'] % 2:
+            import gc
+            gc.collect()
     loaded = []
     for blob in blobs:
         back = call(pickle.loads, blob)
@@ -321,7 +326,7 @@ def run_same_labels(concepts, case, spec):
             return
         loaded.append(back[0] if isinstance(back, tuple) else back)
     COL.count('same_label_histories')
-    for ctx, sh in zip(loaded, shadows):
+    for ctx, sh in list(zip(loaded, shadows)) + alive:
         COL.count('judged_unpickled')
         if not same_triple('same-labels', ctx, sh):
             continue
@@ -534,6 +539,16 @@ def run_case(concepts, case, spec):
         for how in RAW_HOWS if sl.n <= 40 else [RAW_HOWS[hash(gen.table_key(case)) % 4]]:
             COL.count('structured_raw_' + how)
             same_triple('fromdict-raw-' + how, call(C.fromdict, structured_raw_dict(d, rng, how), raw=True), sh)
+        # raw documents (permuted / reversed stored lists) through a JSON file and fromjson(raw=True)
+        for doc in (permuted_dict(d, rng), structured_raw_dict(d, rng, 'reversed')):
+            path = os.path.join(work, f'r{rng.randrange(10**6)}.json')
+            with open(path, 'w', encoding='utf-8') as f:
+                json.dump(plain(doc), f)
+            cj = call(C.fromjson, path, raw=True)
+            if same_triple('fromjson-raw-document', cj, sh) and attach.has_lattice(cj):
+                COL.count('raw_documents_through_fromjson')
+                with core.monitor_code():
+                    judge_lattice(cj.lattice, cj, sh, cap, 'fromjson_raw')
         same_triple('json', _json_roundtrip(concepts, ctx, work, rng, False, False), sh)
         same_triple('json-raw', _json_roundtrip(concepts, ctx, work, rng, False, True), sh)
         same_triple('json-nolattice', _json_roundtrip(concepts, ctx, work, rng, True, False), sh)
@@ -545,6 +560,18 @@ def run_case(concepts, case, spec):
             COL.count('medium_literal_file')
             same_triple('literal-file', call(C.fromfile, path, 'python-literal'), sh)
             same_triple('literal-load', call(concepts.load, path), sh)
+        for enc in ('utf-16', 'latin-1', 'utf-32'):          # the literal file form in other encodings
+            try:
+                ''.join(sh.objects + sh.properties).encode(enc)
+            except UnicodeEncodeError:
+                continue
+            if rng.random() < .5:
+                continue
+            path = os.path.join(work, f'l{rng.randrange(10**6)}.py')
+            if call(ctx.tofile, path, 'python-literal', enc) is not RAISED:
+                COL.count('literal_file_encoding_' + enc)
+                same_triple(f'literal-file-{enc}', call(C.fromfile, path, 'python-literal', enc), sh)
+                same_triple(f'literal-load-{enc}', call(concepts.load, path, enc), sh)
     else:
         same_triple('fromdict-big', call(C.fromdict, d), sh)
     # pickle --------------------------------------------------------------------
